@@ -691,6 +691,18 @@ func classify(stack []ast.Node, id *ast.Ident, info *types.Info) *site {
 		if len(p.Results) == 1 && inBlock(p, i-1) {
 			return &site{call: call, stmt: p, kind: "return", encl: encl}
 		}
+		// `return a.b, h(x)`: one of several results, the ones evaluated before it plain names and selectors: hoisted
+		// like an argument of a call
+		if len(p.Results) > 1 && inBlock(p, i-1) {
+			for _, r := range p.Results {
+				if r == ast.Expr(call) {
+					return &site{call: call, stmt: p, kind: "nested", encl: encl}
+				}
+				if !simple(r) {
+					return nil
+				}
+			}
+		}
 	case *ast.AssignStmt:
 		if len(p.Rhs) != 1 || p.Rhs[0] != ast.Expr(call) || (p.Tok != token.DEFINE && p.Tok != token.ASSIGN) {
 			return nil
@@ -1214,7 +1226,7 @@ func render1(fset *token.FileSet, pk *packages.Package, s *site) (string, string
 				}
 				// an assignment statement followed by the if: what it declares must stay visible after the if
 				if s.follow != nil && as.Tok == token.DEFINE && isIdent && id.Name != "_" && info.Defs[id] != nil {
-					predecl += "var " + id.Name + " " + resTypes[i] + "; "
+					predecl += "var " + id.Name + " " + resTypes[i] + "; _ = " + id.Name + "; " // the if that used it may be decided away
 				}
 			}
 			if s.follow != nil {
@@ -1358,6 +1370,26 @@ func render1(fset *token.FileSet, pk *packages.Package, s *site) (string, string
 					return (id.Name == "true") != s.negate, true
 				}
 				return false, false
+			}
+			// `v, ok := h(); if [!]ok {…}` where the helper returns the literal true/false in that position
+			{
+				cond, neg := ifs.Cond, false
+				if pe, isP := cond.(*ast.ParenExpr); isP {
+					cond = pe.X
+				}
+				if ue, isU := cond.(*ast.UnaryExpr); isU && ue.Op == token.NOT {
+					cond, neg = ue.X, true
+				}
+				if ci, isI := cond.(*ast.Ident); isI {
+					for i, e := range as.Lhs {
+						if id, isId := e.(*ast.Ident); isId && id.Name == ci.Name && i < len(r.Results) {
+							if lit, isL := r.Results[i].(*ast.Ident); isL && (lit.Name == "true" || lit.Name == "false") && info.Uses[lit] != nil && info.Uses[lit].Parent() == types.Universe {
+								return (lit.Name == "true") != neg, true
+							}
+						}
+					}
+					return false, false
+				}
 			}
 			be, ok := ifs.Cond.(*ast.BinaryExpr)
 			if !ok || (be.Op != token.NEQ && be.Op != token.EQL) {
